@@ -314,6 +314,9 @@ func (c *Case) Detail(o Outcome) map[string]any {
 	}
 	if c.Kind == "cli" {
 		d["argv"] = fmt.Sprintf("%q", unhxs(c.ArgsHex))
+		for name, content := range c.Files {
+			d["file:"+name] = show(unhx(content))
+		}
 	}
 	if c.Expect != "" {
 		d["expected"] = c.Expect + " (" + c.ExpectWhy + ")"
